@@ -311,11 +311,12 @@ structure ChkSt where
   ident : List ((Nat × String) × List Nat) := []        -- (ruleset, path) ↦ detector object serials at the previous tick
   actSer : List ((Nat × String × Nat) × Nat) := []      -- (ruleset, path, action) ↦ object serial while present
   abs : List ((Nat × String) × Abs) := []
+  pausedTicks : Nat := 0                                -- statistics: (instance, tick) pairs inside a pause
 
-def checkTick (rss : List RsJ) (objs : List ObjI) (k : Nat) (t : TickJ) (it : ITick) (prev : List (List String))
+def checkTick (c05 : Bool) (rss : List RsJ) (objs : List ObjI) (k : Nat) (t : TickJ) (it : ITick) (prev : List (List String))
     (S : ChkSt) : List String × ChkSt × List (List String) := Id.run do
   let mut v : List String := []
-  let mut S' : ChkSt := {}
+  let mut S' : ChkSt := { pausedTicks := S.pausedTicks }
   let mut cur : List (List String) := []
   let all := it.pre ++ it.run
   for r in rss do
@@ -381,6 +382,13 @@ def checkTick (rss : List RsJ) (objs : List ObjI) (k : Nat) (t : TickJ) (it : IT
       let got := acts.map (·.inst)
       let ctxOf : IEv → (String × String × Int × Int) := fun e => match e with
         | IEv.a _ _ _ _ rs g u d _ _ _ => (rs, g, u, d) | _ => ("", "", -1, -1)
+      -- C05 for ruleset-cgroup rulesets, per matching cgroup (scenarios of C05's `percg` pass): while the instance is inside
+      -- its pause its detectors still run and none of its actions does; from t+d on its actions run again
+      if paused then S' := { S' with pausedTicks := S'.pausedTicks + 1 }
+      if c05 then
+        if !once then v := v ++ ["C05.percg_detectors_every_tick"]
+        if T?.isSome && paused && !got.isEmpty then v := v ++ ["C05.percg_no_action_before_t_plus_d"]
+        if T?.isSome && !paused && got.isEmpty && !expected.isEmpty then v := v ++ ["C05.percg_actions_again_from_t_plus_d"]
       if T?.isSome && got != expected then
         v := v ++ [if fresh then "C11.fresh_after_absence.state" else "C11.state_persists_while_present.state"]
       else
@@ -445,7 +453,7 @@ def collectObjs (compile : List IEv) (ticks : List ITick) : List ObjI := Id.run 
 /-! ### entry point -/
 
 def priority : List String :=
-  ["C11.no_error", "trace", "C11.once_per_match", "C11.prerun_every_tick", "C11.discarded_when_absent",
+  ["C11.no_error", "trace", "C05.", "C11.once_per_match", "C11.prerun_every_tick", "C11.discarded_when_absent",
    "C11.fresh_after_absence", "C11.state_persists_while_present", "C11.default_target"]
 
 def rank (c : String) : Nat := (priority.findIdx? fun p => c.startsWith p).getD priority.length
@@ -500,13 +508,13 @@ def handle (j : Json) : Json :=
   let objs := collectObjs compile iticks
   let chk (acc : List String × ChkSt × List (List String) × Nat) (ti : TickJ × ITick) :=
     let (v, S, prev, k) := acc
-    let (v', S', cur) := checkTick rss objs k ti.1 ti.2 prev S
+    let (v', S', cur) := checkTick (jstr sc "prop" == "C05") rss objs k ti.1 ti.2 prev S
     (v ++ v', S', cur, k + 1)
-  let (viol0, _, _, _) := (ticks.zip iticks).foldl chk ([], {}, [], 0)
+  let (viol0, Sfin, _, _) := (ticks.zip iticks).foldl chk ([], {}, [], 0)
   let viol1 := if iticks.length == ticks.length then viol0 else viol0 ++ ["trace.missing_ticks"]
   let viol := (viol1.eraseDups.toArray.qsort fun a b => rank a < rank b || (rank a == rank b && a < b)).toList
   let cls := (viol.head?.map fun c => (c.splitOn ".").take 2 |> ".".intercalate).getD ""
-  verdict id accepts viol.isEmpty viol cls [("why", Json.str u.why), ("model_ub", Json.bool ub)]
+  verdict id accepts viol.isEmpty viol cls [("why", Json.str u.why), ("model_ub", Json.bool ub), ("paused_ticks", Json.num Sfin.pausedTicks)]
 
 end Driver.Rscgroup
 
